@@ -814,3 +814,50 @@ V("C04-revert-duplicate-calls", "C04", ["C04.R4"], [(STATEFUL, "    stateful_nod
 V("C18-revert-cache-reset", "C18", ["C18.R8"], [(BASE, "        self.factor_cache.clear()\n        self.encoded_cache.clear()\n        self.encoder_state_cache.clear()\n", "")], "origin: revert b35d9c5")
 V("C18-cache-reset-partial", "C18", ["C18.R8"], [(BASE, "        self.encoded_cache.clear()\n", "")])
 V("C14-revert-getstate", "C14", ["C14.R5"], [("formulaic/parser/types/operator_resolver.py", "        return {k: v for k, v in self.__dict__.items() if k != \"operator_table\"}", "        return {}")], "origin: revert 6c0704b")
+
+# ---------------------------------------------------------------------------------------------------- C15 (lexing)
+TOKEN = "formulaic/parser/types/token.py"
+SANITIZE = "formulaic/parser/algos/sanitize_tokens.py"
+CODE = "formulaic/utils/code.py"
+V("C15-revert-nested-quotes", "C15", ["C15.R4"], [(TOKENIZE, '''            if char in "`([{\\"'" and quote_context[-1] in "})]":
+                quote_context.append(
+                    char.replace("(", ")").replace("[", "]").replace("{", "}")
+                )
+''', '''            if char in "`([" and quote_context[-1] in "})]":
+                quote_context.append(char.replace("(", ")").replace("[", "]"))
+''')], "origin: revert 2571948")
+V("C15-nested-no-strings", "C15", ["C15.R4"], [(TOKENIZE, '''            if char in "`([{\\"'" and quote_context[-1] in "})]":''', '''            if char in "`([{" and quote_context[-1] in "})]":''')])
+V("C15-update-lowercases", "C15", ["C15.R1"], [(TOKEN, "        self.token += char\n", "        self.token += char.lower()\n")])
+V("C15-update-no-end", "C15", ["C15.R1"], [(TOKEN, "        self.source_end = source_index\n", "")])
+V("C15-update-start-always", "C15", ["C15.R1"], [(TOKEN, "        if self.source_start is None:\n            self.source_start = source_index\n", "        self.source_start = source_index\n")])
+V("C15-tokenize-shifted-index", "C15", ["C15.R1"], [(TOKENIZE, "        if take > 0:\n            token.update(char, i)\n", "        if take > 0:\n            token.update(char, i + 1)\n")])
+V("C15-verbatim-misses-percent", "C15", ["C15.R2"], [(TOKENIZE, '''quote_context[-1] in ('"', "'", "`", ")", "]", "}", "%"):''', '''quote_context[-1] in ('"', "'", "`", ")", "]", "}"):''')])
+V("C15-wrong-partner", "C15", ["C15.R3"], [(TOKENIZE, '''                quote_context.append(")" if char == "(" else "]")''', '''                quote_context.append("]" if char == "(" else ")")''')])
+V("C15-brace-pushes-paren", "C15", ["C15.R3"], [(TOKENIZE, '''            token = Token(source=formula, kind="python", source_start=i)
+            quote_context.append("}")''', '''            token = Token(source=formula, kind="python", source_start=i)
+            quote_context.append(")")''')])
+V("C15-escape-takes-nothing", "C15", ["C15.R5"], [(TOKENIZE, "            token.update(char, i)\n            take = 1\n", "            token.update(char, i)\n            take = 0\n")])
+V("C15-escape-after-closers", "C15", ["C15.R5"], [(TOKENIZE, '''        if quote_context and char == "\\\\":
+            token.update(char, i)
+            take = 1
+            continue
+''', ""), (TOKENIZE, '''        if quote_context and quote_context[-1] in ('"', "'", "`", ")", "]", "}", "%"):''', '''        if quote_context and char == "\\\\":
+            token.update(char, i)
+            take = 1
+            continue
+        if quote_context and quote_context[-1] in ('"', "'", "`", ")", "]", "}", "%"):''')])
+V("C15-whitespace-kept", "C15", ["C15.R6"], [(TOKENIZE, "        if whitespace_chars.match(char):\n            if token and token.kind is not Token.Kind.OPERATOR:\n                yield token\n                token = Token(source=formula)\n            continue\n",
+                                               "        if whitespace_chars.match(char):\n            if token and token.kind is not Token.Kind.OPERATOR:\n                yield token\n                token = Token(source=formula)\n            token.update(char, i)\n            continue\n")])
+V("C15-whitespace-only-blank", "C15", ["C15.R6"], [(TOKENIZE, '''whitespace_chars: Pattern = re.compile(r"\\s"),''', '''whitespace_chars: Pattern = re.compile(r" "),''')])
+V("C15-whitespace-before-quotes", "C15", ["C15.R6"], [(TOKENIZE, "        if whitespace_chars.match(char):\n            if token and token.kind is not Token.Kind.OPERATOR:\n                yield token\n                token = Token(source=formula)\n            continue\n", ""),
+                                                     (TOKENIZE, "        if take > 0:\n            token.update(char, i)\n            take -= 1\n            continue\n",
+                                                      "        if take > 0:\n            token.update(char, i)\n            take -= 1\n            continue\n        if whitespace_chars.match(char):\n            if token and token.kind is not Token.Kind.OPERATOR:\n                yield token\n                token = Token(source=formula)\n            continue\n")])
+V("C15-sanitize-skips-python", "C15", ["C15.R7"], [(SANITIZE, "        if token.kind is Token.Kind.PYTHON:\n            token.token = sanitize_python_code(token.token)\n", "")])
+V("C15-sanitize-drops-dot", "C15", ["C15.R7"], [(SANITIZE, "            token.kind = Token.Kind.OPERATOR\n", "            token.kind = Token.Kind.OPERATOR\n            continue\n")])
+V("C15-format-expr-identity", "C15", ["C15.R7"], [(CODE, "    code = ast.parse(expr, mode=\"eval\") if isinstance(expr, str) else expr\n    return ast.unparse(code).replace(\"\\n\", \" \")", "    return expr if isinstance(expr, str) else ast.unparse(expr)")])
+V("C15-aliases-not-restored", "C15", ["C15.R7"], [(SANITIZE, "        expr = expr.replace(alias, f\"`{orig}`\")\n", "        expr = expr.replace(alias, orig)\n")])
+V("C15-context-exclusive-end", "C15", ["C15.R8"], [(TOKEN, "self.source[self.source_start:self.source_end+1]}⧚{self.source[self.source_end+1:]}\"\n", "self.source[self.source_start:self.source_end]}⧚{self.source[self.source_end:]}\"\n")])
+V("C15-python-token-lookup", "C15", ["C15.R8"], [(TOKEN, '            Token.Kind.PYTHON: "python",', '            Token.Kind.PYTHON: "lookup",')])
+V("C15-eq-closers-as-tuple", "C15", [], [(TOKENIZE, '''quote_context[-1] in "})]":''', '''quote_context[-1] in ("}", ")", "]"):''')], "equivalent: membership collection spelt as a tuple")
+V("C15-eq-update-renamed", "C15", [], [(TOKEN, "        self, char: str, source_index: int, kind: Union[None, str, Kind] = None\n", "        self, ch: str, source_index: int, kind: Union[None, str, Kind] = None\n"),
+                                      (TOKEN, "        self.token += char\n", "        self.token += ch\n")], "equivalent: parameter renamed")
